@@ -449,6 +449,50 @@ func ancestorsIdentical(final *simrt.Inode, before map[string]map[string]any, ex
 	return "", ""
 }
 
+// embeddedTagsOnDisk: in one file-system state, every (complete) audit file's
+// nested ancestor records carry only tagger tags that the ancestor's own audit
+// file - if it exists and parses - carries as well.
+func embeddedTagsOnDisk(root *simrt.Inode, ex *Expect) (string, string) {
+	files := WorkFiles(root)
+	parsed := map[string]map[string]any{}
+	for p, e := range files {
+		if e.Kind == simrt.KFile && strings.HasSuffix(p, ".audit.json") && len(e.Data) > 0 {
+			if m, err := parseAny(e.Data); err == nil {
+				parsed[strings.TrimSuffix(p, ".audit.json")] = m
+			}
+		}
+	}
+	var walk func(owner string, rec map[string]any) (string, string)
+	walk = func(owner string, rec map[string]any) (string, string) {
+		ups, _ := rec["Upstream"].(map[string]any)
+		for _, k := range sortedKeys(ups) {
+			child, _ := ups[k].(map[string]any)
+			if child == nil {
+				continue
+			}
+			if disk, ok := parsed[Abs(k)]; ok {
+				ct, _ := child["Tags"].(map[string]any)
+				dt, _ := disk["Tags"].(map[string]any)
+				for tk, tv := range ct {
+					if ex.TagKeys[tk] && dt[tk] != tv {
+						return "embedded-tag-not-on-disk", fmt.Sprintf("%s.audit.json shows the tag %s=%v on its ancestor %s, whose own audit file on disk has the tags %v", strings.TrimPrefix(owner, "/work/"), tk, tv, k, dt)
+					}
+				}
+			}
+			if c, d := walk(owner, child); c != "" {
+				return c, d
+			}
+		}
+		return "", ""
+	}
+	for _, owner := range sortedKeys(parsed) {
+		if c, d := walk(owner, parsed[owner]); c != "" {
+			return c, d
+		}
+	}
+	return "", ""
+}
+
 // taggedRecord: is the record of the file at abs one that a tagging component
 // mutates (the file itself or a sibling output of the same task is tagged)?
 func taggedRecord(ex *Expect, abs string) bool {
@@ -618,9 +662,18 @@ func init() {
 				if v := flowOracle(inc, ex); v.Status != "ok" {
 					return foreign(v)
 				}
+				shared := taggerSharesRecord(w)
 				for _, sn := range inc.Snaps {
 					c.CrashStates++
 					c.Fault("kill@state")
+					if !shared && ex.Tagged {
+						// crash consistency of the records themselves: whatever tag a record on
+						// disk shows for one of its ancestors, the ancestor's own audit file on
+						// disk shows too (a tagging component writes before it passes a file on)
+						if cl, d := embeddedTagsOnDisk(sn.Root, ex); cl != "" {
+							return Viol(cl, "", "killed after fs operation #%d (%s %s): %s", sn.JSeq, sn.Entry.Op, strings.TrimPrefix(sn.Entry.Path, "/work/"), d)
+						}
+					}
 					if c.Tape.Choose(simrt.StKill, 4, 0) == 1 && len(Leftovers(sn.Root)) > 0 {
 						// re-run WITHOUT cleanup: refusing is the expected outcome (C03); if it
 						// does complete, what it produced must carry the full lineage all the same
